@@ -105,7 +105,7 @@ func c14(c *Ctx) {
 	}
 	sort.Strings(names)
 	recvs := recvTypes()
-	c.Rule = fmt.Sprintf("exhaustive: %d functions (+1 unknown name) x %d receiver types x argument lists {conformant with 0..2 values for a variadic parameter, one too many}; each validated (verdict + reported type vs the model and vs an oracle computed from ListFunctions()), each accepted conformant call evaluated on every data instance of the receiver type; random chains of 2-3 calls. Recorded deviations are matched as known findings by class. Non-trivial = the call is accepted; distinct by (query, schema).", len(names), len(recvs))
+	c.Rule = fmt.Sprintf("exhaustive: %d functions (+1 unknown name) x %d receiver types x argument lists {conformant with 0..2 values for a variadic parameter, one too many}; each validated (verdict + reported type vs the model and vs an oracle computed from ListFunctions()), every accepted Boolean call once more as an operand of a logical operation, each accepted conformant call evaluated on every data instance of the receiver type; random chains of 2-3 calls. Recorded deviations are matched as known findings by class. Non-trivial = the call is accepted; distinct by (query, schema).", len(names), len(recvs))
 	var schemaCue, schemaSexp []string
 	for _, r := range recvs {
 		schemaCue = append(schemaCue, r.field+": "+r.cue)
@@ -184,6 +184,15 @@ func c14(c *Ctx) {
 					}
 				}
 				cases = append(cases, vc)
+			}
+		}
+	}
+	// an accepted call of Boolean type is an operand of a logical operation: the operation is accepted too
+	// (the call's type is what the descriptor says — for First / Last / Index on a list of booleans, the element's)
+	for _, vc := range append([]vcase{}, cases...) {
+		if vc.wantAccept && !vc.gap && vc.wantPT == "Boolean" && vc.wantIO == "Single" {
+			for _, w := range []string{"{AND," + vc.q + "}", "{OR," + vc.q + "," + vc.q + ".Not()}", "{" + vc.q + ".Not().Not()}"} {
+				cases = append(cases, vcase{q: w, fn: "operand:" + vc.fn, recv: vc.recv, nargs: vc.nargs, conformant: false, wantAccept: true, wantPT: "Boolean", wantIO: "Single"})
 			}
 		}
 	}
